@@ -260,4 +260,36 @@ def formatException (h : Heap) (o : Opts) (budget : Nat) (root : ExcId) (fromDec
   | .ok (ps, _) => .ok ps
   | .error e => .error e
 
+/-! ### `Logger.catch`: which `from_decorator` flag each use of ONE catch object reports
+
+`guard = logger.catch(...)` is a `Catcher(Gen.catchContextFlag)`.  Using it in `with` runs its own
+`__exit__`, which reports the object's flag; using it as a decorator runs the function under a FRESH
+`Catcher(Gen.catchWrapperFlag)`, leaving `guard` untouched. -/
+
+inductive Use where
+  | decorator | context
+  deriving DecidableEq, Repr
+
+structure Catcher where
+  fromDecorator : Bool
+
+/-- one use of the shared object: its state afterwards and the flag handed to the formatter -/
+def useStep (obj : Catcher) : Use → Catcher × Bool
+  | .decorator => (obj, Gen.catchWrapperFlag)
+  | .context => (obj, obj.fromDecorator)
+
+def runUses (obj : Catcher) : List Use → List Bool
+  | [] => []
+  | u :: us => (useStep obj u).2 :: runUses (useStep obj u).1 us
+
+/-- the shape refuted by `C13.shared_flag_leaks` (seeded change C13-g: `catcher = self;
+catcher._from_decorator = True`): the decorator use writes the flag into the shared object -/
+def useStepShared (obj : Catcher) : Use → Catcher × Bool
+  | .decorator => (⟨Gen.catchWrapperFlag⟩, Gen.catchWrapperFlag)
+  | .context => (obj, obj.fromDecorator)
+
+def runUsesShared (obj : Catcher) : List Use → List Bool
+  | [] => []
+  | u :: us => (useStepShared obj u).2 :: runUsesShared (useStepShared obj u).1 us
+
 end Exc
